@@ -1,11 +1,14 @@
 (* C05 oracle driver (parsing/printing only; every decision is made by code extracted from
    coq/model/OpenClipSpec.v).  Commands, one per line (<paths> = npaths then per path n x y ...):
    GP <pathsS> <pathsC> <pathsO>
-        -> "<general_position closed> <gp_open>"
+        -> "<general_position closed> <gp_open> <general_position_C05>"
    OPEN tn td m <pathsS> <pathsC> <pathsO> k (ct fr <pathsOpenSolution>)*k
         tolerances: vertices within tn/td, m units around a cut, m units of length per cut (the property: 3 2 3)
-        -> "gp=0"                                         (hypothesis not met: nothing else is computed)
+        -> "gp=0"                                         (closed paths, or open against closed, not in general position:
+                                                           nothing else is computed)
          | "gp=1 const=<0|1> oself=<0|1> segs=<n> pieces=<n>" then for each of the k solutions
+           (oself = open_general: the open polylines are in general position among themselves and every crossing is
+            clear of every third edge; the hypothesis of C05, general_position_C05, is gp=1 and oself=1)
            " | V n [x y] S n [x1 y1 x2 y2] E n [x1 y1 x2 y2] M n [ax ay bx by lo hi] L ok sollo solhi keptlo kepthi cuts K keptruns"
            V: solution vertices farther than 3/2 from every open subject segment (count, first one)
            S: solution segments without a single subject segment within 3/2 of both end points
@@ -40,7 +43,7 @@ let show_report (r : report) =
 let handle t =
   match next t with
   | "GP" -> let s = read_paths t in let c = read_paths t in let o = read_paths t in
-      show_bool (general_position (s @ c)) ^ " " ^ show_bool (gp_open (s @ c) o)
+      show_bool (general_position (s @ c)) ^ " " ^ show_bool (gp_open (s @ c) o) ^ " " ^ show_bool (general_position_C05 s c o)
   | "OPEN" -> let tn = next_z t in let td = next_z t in let m = next_z t in
       let tl = { tl_nn = tn; tl_nd = td; tl_m = m } in
       let s = read_paths t in let c = read_paths t in let o = read_paths t in
@@ -51,7 +54,7 @@ let handle t =
       else begin
         let sp = open_spec s c o in
         let np = List.fold_left (fun a (ss : sseg) -> a + List.length ss.ss_pieces) 0 sp in
-        let head = Printf.sprintf "gp=1 const=%s oself=%s segs=%d pieces=%d" (show_bool (spec_consistent sp)) (show_bool (open_self_clear o)) (List.length sp) np in
+        let head = Printf.sprintf "gp=1 const=%s oself=%s segs=%d pieces=%d" (show_bool (spec_consistent sp)) (show_bool (open_general (s @ c) o)) (List.length sp) np in
         String.concat " | " (head :: List.map (fun (ct, fr, sol) -> show_report (check_open tl ct fr sp sol)) sols)
       end
   | "SPEC" -> let ct = ct_of_Z (next_z t) in let fr = fr_of_Z (next_z t) in
